@@ -400,8 +400,11 @@ func Scenario(seed int64, k int, res *l2.Result) {
 	d := &director{w: w, plan: &plan, rng: rand.New(rand.NewSource(plan.Seed ^ 0x6c06)), trunk: trunk,
 		powLimit: w.G.P.PowLimit, peerIdx: map[string]int{}, rolePos: make([]int, plan.Peers),
 		reserved: map[chainhash.Hash]bool{}}
+	var told []string // the peers' addresses as the client is given them
 	for i := 0; i < plan.Peers; i++ {
-		p := w.AddPeer(tip)
+		p := w.AddPeerAt(plan.Addrs[i].At(18444), tip)
+		told = append(told, plan.Addrs[i].DialAt(18444))
+		res.Count("peers_addr_"+plan.Addrs[i].Kind(), 1)
 		d.peerIdx[p.Addr] = i
 		p.Mutate = d.mutate
 		if plan.Skew && i > 0 {
@@ -427,7 +430,7 @@ func Scenario(seed int64, k int, res *l2.Result) {
 	if plan.SmallCache {
 		opts.BlockCache = 2500
 	}
-	if err := w.StartClient(nil, opts); err != nil {
+	if err := w.StartClient(told, opts); err != nil {
 		res.Inconcl("client start failed: " + err.Error())
 		return
 	}
@@ -581,8 +584,10 @@ func Scenario(seed int64, k int, res *l2.Result) {
 	res.Count("cache_entries_verified", int64(cacheChecked))
 
 	liveBanned := map[string]bool{}
+	liveAlt := map[string]bool{} // IsBanned asked with the other spelling of the address
 	for _, p := range w.Peers {
 		liveBanned[p.Addr] = w.Svc.IsBanned(p.Addr)
+		liveAlt[p.Addr] = w.Svc.IsBanned(altOf(p.Addr, plan.Addrs))
 	}
 	// Connections to banned addresses must be gone. The connection manager
 	// keeps redialling persistent peers; such attempts are closed by the
@@ -613,6 +618,7 @@ func Scenario(seed int64, k int, res *l2.Result) {
 	}
 	var bans []banRec
 	status := map[string]banman.Status{}
+	statusAlt := map[string]banman.Status{} // asked with the other spelling
 	db, err := walletdb.Open("bdb", filepath.Join(w.Dir, "neutrino.db"), true, 10*time.Second, false)
 	if err != nil {
 		res.Inconcl("cannot reopen the database: " + err.Error())
@@ -635,6 +641,11 @@ func Scenario(seed int64, k int, res *l2.Result) {
 			continue
 		}
 		status[p.Addr] = st
+		if ipa, err := banman.ParseIPNet(altOf(p.Addr, plan.Addrs), nil); err == nil {
+			if sa, err := store.Status(ipa); err == nil {
+				statusAlt[p.Addr] = sa
+			}
+		}
 		br := banRec{Addr: p.Addr, Banned: st.Banned, Live: liveBanned[p.Addr]}
 		if st.Banned {
 			br.Reason = st.Reason.String()
@@ -696,7 +707,26 @@ func Scenario(seed int64, k int, res *l2.Result) {
 	for _, c := range calls {
 		requested[c.Hash.String()] = true
 	}
+	// offended64: the /64s (IPv6) from which something other than true
+	// blocks was sent, and by which peer.
+	offended64 := map[string]map[int]bool{}
+	for _, a := range answers {
+		if n64 := plan.Addrs[a.Peer].Net64; n64 != "" && a.Class != "good" && a.Class != "ignore" {
+			if offended64[n64] == nil {
+				offended64[n64] = map[int]bool{}
+			}
+			offended64[n64][a.Peer] = true
+		}
+	}
 	for i, p := range w.Peers {
+		kind := plan.Addrs[i].Kind()
+		// A peer that shares its /64 with ANOTHER peer that misbehaved: the
+		// statement speaks of the sender; nothing is asserted about the
+		// neighbourhood.
+		bystander := false
+		for j := range offended64[plan.Addrs[i].Net64] {
+			bystander = bystander || j != i
+		}
 		var must *Answer // an answer that obliges the client to ban
 		var orphan *Answer
 		anyBad, anyAmbig := false, false
@@ -750,7 +780,7 @@ func Scenario(seed int64, k int, res *l2.Result) {
 			if st.Banned {
 				how = "banned-for-another-reason"
 			}
-			res.Violate(evid.Sig("c06/invalid-block-sender-not-banned", must.Step, witStr(w, must.Hash), how),
+			res.Violate(evid.Sig("c06/invalid-block-sender-not-banned", must.Step, witStr(w, must.Hash), how, "addr:"+kind),
 				fmt.Sprintf("peer %s answered the request for block %s (height %d) with a block carrying that header but differing from it (%s; btcd sanity: %q, commitment: %q) while the call was active, and is %s",
 					p.Addr, must.HashStr, must.Height, must.Step, firstBad(must).SanityErr, firstBad(must).CommitErr, how), wit())
 		case must == nil && orphan != nil && !invalidBan:
@@ -759,12 +789,38 @@ func Scenario(seed int64, k int, res *l2.Result) {
 			// The client's adjusted clock was moved back by its peers: it
 			// rejects the true block for its timestamp. Outside the statement.
 			res.Count("skew_true_block_senders_banned", 1)
+		case !anyBad && !anyAmbig && invalidBan && bystander:
+			res.Count("unoffending_peer_in_an_offenders_64_banned", 1)
 		case !anyBad && !anyAmbig && invalidBan:
 			res.Violate(evid.Sig("c06/innocent-peer-banned", strings.Join(cl, "+")),
 				fmt.Sprintf("peer %s never sent a block with a requested header that differs from the true block (answer classes: %v) yet is banned for InvalidBlock", p.Addr, cl), wit())
 		}
 		if invalidBan {
 			res.Count("peers_banned_invalid_block", 1)
+			res.Count("peers_banned_invalid_block_addr_"+kind, 1)
+		}
+		if must != nil {
+			res.Count("invalid_block_senders_addr_"+kind, 1)
+			if len(offended64[plan.Addrs[i].Net64]) > 0 && plan.Addrs[i].Net64 != "" {
+				n := 0
+				for _, a := range plan.Addrs {
+					if a.Net64 == plan.Addrs[i].Net64 {
+						n++
+					}
+				}
+				if n > 1 {
+					res.Count("invalid_block_senders_with_others_in_their_64", 1)
+				}
+			}
+		}
+		// The other spelling of the address names the same host.
+		if sa, ok := statusAlt[p.Addr]; ok && !(bystander && !anyBad && !anyAmbig) {
+			res.Count("ban_states_compared_in_two_spellings", 1)
+			if sa.Banned != st.Banned || liveAlt[p.Addr] != liveBanned[p.Addr] {
+				res.Violate(evid.Sig("c06/ban-record-depends-on-address-spelling", "addr:"+kind),
+					fmt.Sprintf("peer %s: ban store banned=%v / IsBanned=%v, but asked as %s: ban store banned=%v / IsBanned=%v (two spellings of one address)",
+						p.Addr, st.Banned, liveBanned[p.Addr], altOf(p.Addr, plan.Addrs), sa.Banned, liveAlt[p.Addr]), wit())
+			}
 		}
 		if anyAmbig && !anyBad {
 			if invalidBan {
@@ -773,8 +829,8 @@ func Scenario(seed int64, k int, res *l2.Result) {
 				res.Count("honest_stripped_answer_to_base_request_not_banned", 1)
 			}
 		}
-		if liveBanned[p.Addr] != st.Banned {
-			res.Violate(evid.Sig("c06/isbanned-disagrees-with-store"),
+		if liveBanned[p.Addr] != st.Banned && !(bystander && !anyBad && !anyAmbig) {
+			res.Violate(evid.Sig("c06/isbanned-disagrees-with-store", "addr:"+kind),
 				fmt.Sprintf("IsBanned(%s)=%v before Stop but the ban store says banned=%v after", p.Addr, liveBanned[p.Addr], st.Banned), wit())
 		}
 		// A banned address must not complete a new handshake.
